@@ -206,6 +206,51 @@ def run_check(pid, tier, seed):
             status = 2
             log("---- shard %d exit %s, no replay file; output tail:" % (i, c))
             log(outs[i][-4000:])
+    # native coverage-guided fuzzing (thorough tier only; the saved crasher is the reproducible unit)
+    fuzz = p.get("fuzz")
+    fuzz_stats = {}
+    if fuzz and tier == "thorough" and not violations and status == 0:
+        fdir = os.path.join(HARNESS, "props", "testdata", "fuzz")
+        for target in fuzz["targets"]:
+            shutil.rmtree(os.path.join(fdir, target), ignore_errors=True)
+            rp = os.path.join(rundir, "replay-%s.json" % target)
+            e = goenv()
+            e.update({"VERIF_ROOT": ROOT, "VERIF_REPLAY_OUT": rp, "VERIF_REPO": "/repo", "TMPDIR": os.path.join(rundir, "tmp0")})
+            e.pop("VERIF_FRAG", None)
+            cmd = ["go", "test", "./props", "-run", "^$", "-fuzz", "^%s$" % target, "-fuzztime", "%ds" % fuzz["seconds"], "-tags", "verif"]
+            try:
+                r = subprocess.run(cmd, cwd=HARNESS, env=e, stdout=subprocess.PIPE, stderr=subprocess.STDOUT, text=True, timeout=fuzz["seconds"] * 3 + 300)
+                out, rc = r.stdout, r.returncode
+            except subprocess.TimeoutExpired as ex:
+                out, rc = (ex.stdout or b"").decode(errors="replace") if isinstance(ex.stdout, bytes) else (ex.stdout or ""), -9
+            execs = 0
+            for line in out.splitlines():
+                if "execs:" in line:
+                    try:
+                        execs = int(line.split("execs:")[1].split()[0])
+                    except ValueError:
+                        pass
+            fuzz_stats[target] = {"execs": execs, "seconds": fuzz["seconds"], "exit": rc}
+            evaluations += execs
+            if rc == 0:
+                continue
+            if os.path.exists(rp):
+                with open(rp, "rb") as f:
+                    data = f.read()
+                h = hashlib.sha1(data).hexdigest()[:12]
+                dst = os.path.join(ROOT, "replays", "%s-%s.json" % (pid, h))
+                os.makedirs(os.path.dirname(dst), exist_ok=True)
+                with open(dst, "wb") as f:
+                    f.write(data)
+                violations.append(dst)
+            elif rc == -9:
+                status = 2
+                log("INCONCLUSIVE property=%s: fuzz target %s exceeded its time budget" % (pid, target))
+            else:
+                status = 2
+                log("---- fuzz target %s failed without a replay file:" % target)
+                log(out[-3000:])
+            shutil.rmtree(os.path.join(fdir, target), ignore_errors=True)
     short = {k: (executed.get(k, 0), v) for k, v in requested.items() if executed.get(k, 0) < v}
     if timed_out:
         status = 2
@@ -229,6 +274,8 @@ def run_check(pid, tier, seed):
         "known_findings_reported": known_lines,
         "distinct_count_capped": capped,
     }
+    if fuzz_stats:
+        cov["native_fuzz"] = fuzz_stats
     if p.get("exhaustive_note") and notes:
         ex = [v for k, v in sorted(notes.items()) if k.startswith("exhaustive")]
         if ex and not violations and status == 0:
